@@ -32,6 +32,119 @@ def _labels(ctx, b, op):
 INFALLIBLE_JSON = re.compile(r"^&?(&?str|usize|u64|u32|i64|bool|std::string::String|std::collections::HashMap<std::string::String, std::string::String>|std::option::Option<&?str>|&std::string::String|&usize|&bool|&std::collections::HashMap<std::string::String, std::string::String>)$")
 
 
+def _str_root(b, op, depth=0):
+    """the local that holds the string an operand designates, looking through references, copies,
+    `Deref` / `as_str` and prefix slices `s[..x]` (an offset into a prefix is an offset into s)"""
+    pl = util.op_place(op) if ("c" in op or "m" in op) else op
+    if pl is None or "l" not in pl:
+        return None
+    l = pl["l"]
+    for _ in range(12):
+        ds = [d for d in b.defs().get(l, []) if d[0] in ("stmt", "call")]
+        if len(ds) != 1 or l <= b.argc:
+            return l
+        d = ds[0]
+        if d[0] == "stmt":
+            rv = d[3]["rv"]
+            if rv["k"] in ("ref", "rawptr") and not any(isinstance(x, dict) for x in rv["place"]["p"]):
+                l = rv["place"]["l"]
+                continue
+            if rv["k"] in ("use", "cast"):
+                p2 = util.op_place(rv["op"])
+                if p2 is not None and not any(isinstance(x, dict) and "f" in x for x in p2["p"]):
+                    if b.locals[l].get("user") and any(isinstance(x, dict) for x in p2["p"]):
+                        return l
+                    l = p2["l"]
+                    continue
+            return l
+        tt = d[3]
+        nm = callee_name(tt)
+        if re.search(r"Deref>?::deref$|String::as_str$|AsRef<.*>>?::as_ref$|Borrow<.*>>?::borrow$", nm) and tt["args"]:
+            p2 = util.op_place(tt["args"][0])
+            if p2 is None:
+                return l
+            l = p2["l"]
+            continue
+        if census.INDEX.search(tt.get("def") or nm) and len(tt["args"]) >= 2:
+            rp = util.op_place(tt["args"][1])
+            rty = b.local_ty(rp["l"]) if rp is not None else ""
+            if "RangeTo<" in rty and "Inclusive" not in rty:
+                p2 = util.op_place(tt["args"][0])
+                if p2 is None:
+                    return l
+                l = p2["l"]
+                continue
+        return l
+    return l
+
+
+def _same_string(b, e, recv_root):
+    """the call expression `e` (a search / len) is applied to the sliced string or a prefix of it"""
+    if e[0] == "call" and len(e) > 3 and isinstance(e[3], int):
+        tt = b.blocks[e[3]]["term"]
+        if tt and tt.get("args"):
+            return _str_root(b, tt["args"][0]) == recv_root
+    return False
+
+
+def _search_bound(ctx, b, E, e, recv_vars, depth):
+    if depth > 6:
+        return False
+    while e[0] == "proj" and len(e) > 1:
+        e = e[1]
+    if e[0] == "cast":
+        return _search_bound(ctx, b, E, e[2], recv_vars, depth + 1)
+    if e[0] == "const":
+        return e[1] == 0
+    if e[0] == "call":
+        if re.search(r"<impl str>::len$|string::String::len$", e[1]) and e[2]:
+            return _same_string(b, e, recv_vars)
+        if re.search(r"<impl str>::(find|rfind)$", e[1]) and e[2]:
+            return _same_string(b, e, recv_vars)
+        if re.search(r"Try>?::branch$|Option::<T>::(unwrap|expect|unwrap_or|unwrap_or_else|filter)$|Iterator>?::next$", e[1]) and e[2]:
+            if re.search(r"unwrap_or$", e[1]) and len(e[2]) > 1 and not _search_bound(ctx, b, E, e[2][1], recv_vars, depth + 1):
+                return False
+            return _search_bound(ctx, b, E, e[2][0], recv_vars, depth + 1)
+        if re.search(r"<impl str>::(match_indices|rmatch_indices|char_indices)$", e[1]) and e[2]:
+            return _same_string(b, e, recv_vars)
+        if re.search(r"Iterator::(rev|peekable|by_ref|skip|take)$|IntoIterator>?::into_iter$", e[1]) and e[2]:
+            return _search_bound(ctx, b, E, e[2][0], recv_vars, depth + 1)
+        return False
+    if e[0] == "bin" and e[1].startswith("Add") and e[3][0] == "const" and isinstance(e[3][1], int):
+        # i + k after a search for a constant pattern of exactly k bytes (one-byte ASCII char, or a k-byte str)
+        inner = e[2]
+        while inner[0] == "proj" and len(inner) > 1:
+            inner = inner[1]
+        srch = [c for c in walk(inner) if c[0] == "call" and re.search(r"<impl str>::(find|rfind|match_indices|rmatch_indices)$", c[1])]
+        if len(srch) == 1 and len(srch[0][2]) > 1:
+            pat = srch[0][2][1]
+            plen = None
+            if pat[0] == "const" and isinstance(pat[1], int) and 0 < pat[1] < 128:
+                plen = 1
+            elif pat[0] == "const" and isinstance(pat[1], str):
+                plen = len(pat[1].encode())
+            if plen is not None and 0 < e[3][1] <= plen and pat[0] == "const" and (isinstance(pat[1], int) or e[3][1] == plen):
+                return _search_bound(ctx, b, E, e[2], recv_vars, depth + 1)
+        return False
+    if e[0] in ("var",) and isinstance(e[1], int):
+        ds = [d for d in b.defs().get(e[1], []) if d[0] in ("stmt", "call")]
+        if not ds or e[1] <= b.argc:
+            return False
+        for d in ds:
+            if d[0] == "stmt":
+                ev = E.rvalue(d[3]["rv"])
+                if ev == e:
+                    return False
+                if not _search_bound(ctx, b, E, ev, recv_vars, depth + 1):
+                    return False
+            else:
+                ev = E.call(d[3], d[1])
+                if not _search_bound(ctx, b, E, ev, recv_vars, depth + 1):
+                    return False
+        return True
+    return False
+
+
 def auto_discharge(ctx, s):
     """Function-independent discharges by contract. Returns (class, reason) or None."""
     kind = s["kind"]
@@ -66,6 +179,50 @@ def auto_discharge(ctx, s):
         if calls and not other and all(re.search(r"<impl \[T\]>::partition_point$", c) for c in calls) and (s["index"][0] == "agg" and s["index"][1].endswith("RangeFrom")):
             rl = _labels(ctx, b, t["args"][0])
             return ("std-contract", "partition_point returns an index <= len")
+    if kind == "index-str" and s.get("index") is not None and s.get("recv") is not None:
+        # bounds produced by searching the very string that is sliced: `s[..s.rfind(p)?]`, `s[i..]` with
+        # i = s.find(p), `s[i + 1..]` after a one-byte ASCII pattern, `s[..e]` with e = s.len() or an
+        # earlier search result in a prefix `s[..e']`. std contract: find / rfind / match_indices return
+        # byte offsets of s that lie on char boundaries; an offset found in a prefix is an offset of s.
+        E = ctx.expr(b)
+        ie = s["index"]
+        recv_vars = _str_root(b, t["args"][0]) if t.get("args") else None
+        # (two-sided ranges are not discharged here: both ends being valid offsets does not make start <= end)
+        if ie[0] == "agg" and re.search(r"ops::Range(From|To)::Range(From|To)$|ops::Range(From|To)$", ie[1]) and ie[2] and recv_vars is not None:
+            if all(_search_bound(ctx, b, E, pe, recv_vars, 0) for pe in ie[2]):
+                return ("std-contract", "the bound is the length of the sliced string or the result of find / rfind / match_indices on (a prefix of) that same string, plus the byte length of a one-byte pattern at most: in bounds and on a char boundary")
+    if kind == "bounds" and s.get("b_op") is not None:
+        # `v[i]` under a dominating `i < v.len()` with i unchanged in between (the `while i < v.len()` scan)
+        cfg = cfg_of(b)
+        E = ctx.expr(b)
+        ipl = util.op_place(s["b_op"])
+        site_bb = s["bb"]
+        if ipl is not None:
+            i_root = util.copy_root(b, ipl["l"])
+            len_vars = {x[1] for x in walk(s["a"]) if x[0] in ("var", "param") and isinstance(x[1], int)}
+            for bj, tt in b.terms():
+                if tt["k"] != "switch" or not cfg.dominates(bj, site_bb) or bj == site_bb:
+                    continue
+                e = E.operand(tt["op"])
+                if not (e[0] == "bin" and e[1] in ("Lt", "Gt")):
+                    continue
+                small, big = (e[2], e[3]) if e[1] == "Lt" else (e[3], e[2])
+                if not (small[0] == "var" and util.copy_root(b, small[1]) == i_root):
+                    continue
+                if not any(c[0] == "call" and re.search(r"<impl \[T\]>::len$|Vec::<T, A>::len$", c[1]) for c in walk(big)) and big[0] != "len":
+                    continue
+                bvars = {x[1] for x in walk(big) if x[0] in ("var", "param") and isinstance(x[1], int)}
+                if len_vars and bvars and not (len_vars & bvars):
+                    # different containers by name: compare by storage identity of the sliced value
+                    pass
+                arms = util.switch_arms(b, bj)
+                true_arm = arms["otherwise"] if 0 in arms else arms.get(1)
+                if true_arm is None or not cfg.dominates(true_arm, site_bb):
+                    continue
+                between = cfg.reach(true_arm, avoid={site_bb})
+                redefs = [d for d in b.defs().get(i_root, []) if d[1] in between and cfg.can_reach(d[1], site_bb, avoid={bj})]
+                if not redefs:
+                    return ("guarded", "the index is compared with the slice's length (`i < v.len()`) on the way to the access and not changed in between")
     if kind == "overflow-Sub" and s.get("a") and s.get("b"):
         # len(x) - len(part of x): a trimmed / stripped slice is never longer than the string it was cut from
         a, bb = s["a"], s["b"]
@@ -92,6 +249,7 @@ def run(ctx, out, tier):
     by_class = {}
     used = set()
     samples = []
+    auto_now = {}
     for s in S:
         b = s["body"]
         if s["kind"] == "overflow-Add":
@@ -112,10 +270,16 @@ def run(ctx, out, tier):
         if ad is not None:
             n_contract += 1
             by_class[ad[0]] = by_class.get(ad[0], 0) + 1
+            auto_now[s["ckey"]] = auto_now.get(s["ckey"], 0) + 1
             continue
         groups.setdefault(s["ckey"], []).append(s)
     for ck, ss in sorted(groups.items()):
         d = table.get(ck)
+        if d is not None:
+            # sites of this shape that a contract rule discharged on the reviewed tree and that it no
+            # longer recognises (the same access written differently) keep their slot
+            d = dict(d)
+            d["count"] = d.get("count", 0) + max(0, d.get("auto", 0) - auto_now.get(ck, 0))
         if d is not None and len(ss) <= d["count"]:
             n_tab += len(ss)
             used.add(ck)
@@ -147,7 +311,7 @@ def run(ctx, out, tier):
     for l in L:
         b = l["body"]
         variants[l["variant"]] = variants.get(l["variant"], 0) + 1
-        if l["variant"] in ("iterator", "await", "tree-cursor", "counter"):
+        if l["variant"] in ("iterator", "await", "tree-cursor", "counter", "counter-up", "ancestor-walk", "shrinking-prefix", "shrinking-bound"):
             n_l += 1
             continue
         if l["variant"] in ("shrinking-slice", "advancing-offset"):
